@@ -301,7 +301,7 @@ func returnsFresh(c *Ctx, f *ssa.Function, idx, depth int) bool {
 	return found
 }
 
-func runSORT(c *Ctx, r *Result, rule string, reach *Reach, scope PkgSet) {
+func runSORT(c *Ctx, g *MCG, r *Result, rule string, reach *Reach, scope PkgSet, minStable int) {
 	stable := 0
 	for _, f := range reach.Sorted() {
 		if f.Synthetic != "" || !scope[fnPkg(f)] {
@@ -340,7 +340,7 @@ func runSORT(c *Ctx, r *Result, rule string, reach *Reach, scope PkgSet) {
 			// comparator strictness
 			args := ci.Common().Args
 			oc := Obligation{Rule: rule, Key: key + ":comparator", Fn: shortFn(f), Pos: c.W.Pos(ci.Pos()), Nontrivial: true}
-			fs := c.G.funcValues(args[1], nil)
+			fs := g.funcValues(args[1], nil)
 			if len(fs) == 0 {
 				oc.Verdict, oc.Reason = Undecided, "comparator of sort.SliceStable cannot be resolved"
 			} else {
@@ -362,7 +362,7 @@ func runSORT(c *Ctx, r *Result, rule string, reach *Reach, scope PkgSet) {
 			r.Add(of)
 		}
 	}
-	r.RequireMin(rule+" stable sort calls under Eval", stable, 3)
+	r.RequireMin(rule+" stable sort calls under Eval", stable, minStable)
 }
 
 // MERGE: jlib.merge takes from the left run unless the comparator says "left goes after right".
